@@ -504,42 +504,46 @@ func safeDump(v *state.Validator) (out string, perr string) {
 	return string(b), ""
 }
 
-// diff names the components of two rich observations that differ.
-func (a rich) diff(b rich) []string {
-	var d []string
+// diff names the components of two rich observations that differ, each with a
+// tag (acct, misc, val, index, stat, queue, root, valroot, stakeroot, book).
+type diffItem struct{ tag, text string }
+
+func (a rich) diff(b rich) []diffItem {
+	var d []diffItem
+	add := func(tag, text string) { d = append(d, diffItem{tag, text}) }
 	for i := range a.Accounts {
 		if a.Accounts[i] != b.Accounts[i] {
-			d = append(d, fmt.Sprintf("account %d: %s  ->  %s", uAddr[i], a.Accounts[i], b.Accounts[i]))
+			add("acct", fmt.Sprintf("account %d: %s  ->  %s", uAddr[i], a.Accounts[i], b.Accounts[i]))
 		}
 	}
 	if a.Misc != b.Misc {
-		d = append(d, "refund/logs/preimages: "+a.Misc+"  ->  "+b.Misc)
+		add("misc", "refund/logs/preimages: "+a.Misc+"  ->  "+b.Misc)
 	}
 	for i := range a.Validators {
 		if a.Validators[i] != b.Validators[i] {
-			d = append(d, fmt.Sprintf("validator %d: %s  ->  %s", uVal[i], a.Validators[i], b.Validators[i]))
+			add("val", fmt.Sprintf("validator %d: %s  ->  %s", uVal[i], a.Validators[i], b.Validators[i]))
 		}
 	}
 	if a.Index != b.Index {
-		d = append(d, "validator index: "+a.Index+"  ->  "+b.Index)
+		add("index", "validator index: "+a.Index+"  ->  "+b.Index)
 	}
 	if a.Stat != b.Stat {
-		d = append(d, "validator statistics: "+a.Stat+"  ->  "+b.Stat)
+		add("stat", "validator statistics: "+a.Stat+"  ->  "+b.Stat)
 	}
 	if a.Queue != b.Queue {
-		d = append(d, "withdraw queue: "+a.Queue+"  ->  "+b.Queue)
+		add("queue", "withdraw queue: "+a.Queue+"  ->  "+b.Queue)
 	}
 	if a.Root != b.Root {
-		d = append(d, "state root: "+a.Root+"  ->  "+b.Root)
+		add("root", "state root: "+a.Root+"  ->  "+b.Root)
 	}
 	if a.ValRoot != b.ValRoot {
-		d = append(d, "validator root: "+a.ValRoot+"  ->  "+b.ValRoot)
+		add("valroot", "validator root: "+a.ValRoot+"  ->  "+b.ValRoot)
 	}
 	if a.StakeRoot != b.StakeRoot {
-		d = append(d, "staking root: "+a.StakeRoot+"  ->  "+b.StakeRoot)
+		add("stakeroot", "staking root: "+a.StakeRoot+"  ->  "+b.StakeRoot)
 	}
 	if a.Internals != b.Internals {
-		d = append(d, "bookkeeping: "+a.Internals+"  ->  "+b.Internals)
+		add("book", "bookkeeping: "+a.Internals+"  ->  "+b.Internals)
 	}
 	return d
 }
@@ -548,21 +552,23 @@ func (a rich) diff(b rich) []string {
 // designed RIPEMD exception of journal.go are recognised by what a history
 // does, and excuse only the components they are known to disturb.
 const (
-	keyRemoveValidator = "revert does not restore a validator removed with RemoveValidator (validatorDeleteChange keeps the deleted flag and does not restore the statistics)"
-	keyWithdrawOrder   = "revert re-appends withdraw records removed with RemoveWithdrawRecords at the end of the queue instead of their old positions"
-	keyDelegationAlias = "revert does not restore a validator's delegation list after UpdateDelegation (PartialCopy shares the Delegations slice that UpdateDelegationFrom edits in place)"
-	keyRevertFails     = "reverting to a valid snapshot panics"
-	keyNotRestored     = "state after RevertToSnapshot differs from the state at Snapshot"
+	keyRemoveValidator   = "revert does not restore a validator removed with RemoveValidator (validatorDeleteChange keeps the deleted flag and does not restore the statistics)"
+	keyWithdrawOrder     = "revert re-appends withdraw records removed with RemoveWithdrawRecords at the end of the queue instead of their old positions"
+	keyDelegationAlias   = "revert does not restore a validator's delegation list after UpdateDelegation (PartialCopy shares the Delegations slice that UpdateDelegationFrom edits in place)"
+	keyCreateOverRemoved = "revert of a CreateValidator that replaced a removed validator wipes the address: the removed record and its index entry are not put back (validatorCreateChange)"
+	keyRevertFails       = "reverting to a valid snapshot panics"
+	keyNotRestored       = "state after RevertToSnapshot differs from the state at Snapshot"
 )
 
 type snapRec struct {
-	id       int64
-	obs      rich
-	rmval    bool // a RemoveValidator happened since (and is not yet reverted past)
-	rmwd     bool
-	ripemd   bool // the RIPEMD precompile was touched while empty
-	dlg      bool // an UpdateDelegation happened since
-	opIndex  int
+	id      int64
+	obs     rich
+	rmval   bool // a RemoveValidator happened since (and is not yet reverted past)
+	rmwd    bool
+	ripemd  bool // the RIPEMD precompile was touched while empty
+	dlg     bool // an UpdateDelegation happened since
+	crdel   bool // a CreateValidator replaced a deleted record of the live map since
+	opIndex int
 }
 
 type oracle struct {
@@ -577,7 +583,7 @@ func (o *oracle) mark(f func(*snapRec)) {
 }
 
 // before is called before a call is made, after when it has returned.
-func (o *oracle) step(e *env, h []Op, i int, op Op, ret int64, panicked bool, msg string, preEmptyRipemd bool) (class string) {
+func (o *oracle) step(e *env, h []Op, i int, op Op, ret int64, panicked bool, msg string, preEmptyRipemd, preDeletedLive bool) (class string) {
 	switch op.K {
 	case "snapshot":
 		if !panicked {
@@ -594,6 +600,10 @@ func (o *oracle) step(e *env, h []Op, i int, op Op, ret int64, panicked bool, ms
 	case "upddelegation":
 		if ret == 1 {
 			o.mark(func(s *snapRec) { s.dlg = true })
+		}
+	case "createval":
+		if ret == 1 && preDeletedLive {
+			o.mark(func(s *snapRec) { s.crdel = true })
 		}
 	case "addbal":
 		if op.A == 3 && bigOf(op.V).Sign() == 0 && preEmptyRipemd {
@@ -622,18 +632,31 @@ func (o *oracle) step(e *env, h []Op, i int, op Op, ret int64, panicked bool, ms
 		}
 		now := e.rich()
 		d := rec.obs.diff(now)
-		var rest []string
+		var rest, all []string
 		used := map[string][]string{}
-		for _, x := range d {
+		in := func(tag string, tags ...string) bool {
+			for _, t := range tags {
+				if t == tag {
+					return true
+				}
+			}
+			return false
+		}
+		for _, it := range d {
+			x := it.text
+			all = append(all, x)
+			copyPanic := strings.Contains(x, "Copy/IntermediateRoot panics")
 			switch {
-			case rec.ripemd && (strings.HasPrefix(x, "state root") || strings.HasPrefix(x, "bookkeeping")):
+			case rec.ripemd && in(it.tag, "root", "book"):
 				used["ripemd"] = append(used["ripemd"], x)
-			case rec.rmval && (strings.HasPrefix(x, "validator ") || strings.Contains(x, "Copy/IntermediateRoot panics")):
+			case rec.rmval && (in(it.tag, "val", "stat", "index", "valroot") || copyPanic):
 				used["rmval"] = append(used["rmval"], x)
-			case rec.rmwd && (strings.HasPrefix(x, "withdraw queue") || strings.HasPrefix(x, "validator root")):
+			case rec.rmwd && in(it.tag, "queue", "valroot"):
 				used["rmwd"] = append(used["rmwd"], x)
-			case rec.dlg && (strings.HasPrefix(x, "validator ") || strings.Contains(x, "Copy/IntermediateRoot panics")):
+			case rec.dlg && (in(it.tag, "val", "valroot") || copyPanic):
 				used["dlg"] = append(used["dlg"], x)
+			case rec.crdel && (in(it.tag, "index", "stat", "valroot", "book") || copyPanic):
+				used["crdel"] = append(used["crdel"], x)
 			default:
 				rest = append(rest, x)
 			}
@@ -643,14 +666,17 @@ func (o *oracle) step(e *env, h []Op, i int, op Op, ret int64, panicked bool, ms
 			o.hit(keyNotRestored, strings.Join(rest, " | "), h, i)
 			return "revert_valid_NOT_RESTORED"
 		case len(used["rmval"]) > 0:
-			o.hit(keyRemoveValidator, strings.Join(d, " | "), h, i)
+			o.hit(keyRemoveValidator, strings.Join(all, " | "), h, i)
 			return "revert_valid_known_remove_validator"
 		case len(used["rmwd"]) > 0:
-			o.hit(keyWithdrawOrder, strings.Join(d, " | "), h, i)
+			o.hit(keyWithdrawOrder, strings.Join(all, " | "), h, i)
 			return "revert_valid_known_withdraw_order"
 		case len(used["dlg"]) > 0:
-			o.hit(keyDelegationAlias, strings.Join(d, " | "), h, i)
+			o.hit(keyDelegationAlias, strings.Join(all, " | "), h, i)
 			return "revert_valid_known_delegation_alias"
+		case len(used["crdel"]) > 0:
+			o.hit(keyCreateOverRemoved, strings.Join(all, " | "), h, i)
+			return "revert_valid_known_create_over_removed"
 		case len(d) > 0:
 			return "revert_valid_ripemd_exception"
 		}
@@ -663,6 +689,92 @@ func (o *oracle) hit(what, detail string, h []Op, i int) {
 	o.hits = append(o.hits, map[string]interface{}{"what": what, "detail": detail, "ops": h[:i+1], "at": i})
 }
 
+// valCond evaluates, on the state before a validator call, the side condition
+// under which theorem C09_revert_restores_* covers the call (create_ok /
+// update_ok / get_ok / remove_ok of coq/C09/ProofsV.v); "" = not a validator call.
+func valCond(e *env, o Op) string {
+	st := e.st
+	statOK := func() bool {
+		stat, err := st.GetValidatorsStat()
+		if err != nil {
+			return false
+		}
+		for _, b := range []*state.ValKindStat{stat.GetByKind(params.KindValidator), stat.GetByKind(params.KindChamber), stat.GetByKind(params.KindHouse),
+			stat.GetByRole(params.RoleChancellor), stat.GetByRole(params.RoleSenator), stat.GetByRole(params.RoleHouse)} {
+			if b.GetOnlineStake().Sign() < 0 || b.GetOnlineToken().Sign() < 0 || b.GetOfflineStake().Sign() < 0 || b.GetOfflineToken().Sign() < 0 {
+				return false
+			}
+		}
+		return true
+	}
+	covers := func(v *state.Validator) bool {
+		stat, _ := st.GetValidatorsStat()
+		kind, ok := params.KindOfRole(v.Role)
+		if !ok {
+			return true
+		}
+		for _, b := range []*state.ValKindStat{stat.GetByKind(params.KindValidator), stat.GetByKind(kind), stat.GetByRole(v.Role)} {
+			s, t := b.GetOnlineStake(), b.GetOnlineToken()
+			if v.Status != params.ValidatorOnline {
+				s, t = b.GetOfflineStake(), b.GetOfflineToken()
+			}
+			if v.Stake.Cmp(s) > 0 || v.Token.Cmp(t) > 0 {
+				return false
+			}
+		}
+		return true
+	}
+	switch o.K {
+	case "createval", "updval", "getval", "rmval":
+	default:
+		return ""
+	}
+	a := valAddr(o.A)
+	v, live, del := st.VerifC09PeekValidator(a)
+	in := st.VerifC09Internals()
+	switch o.K {
+	case "createval":
+		switch {
+		case live && !del:
+			return "ok"
+		case live && del:
+			return "fail:create over a deleted live record"
+		case v != nil:
+			return "fail:lazy load"
+		case in.Index[a]:
+			return "fail:address already in index"
+		case !statOK():
+			return "fail:negative statistics"
+		}
+		return "ok"
+	case "updval", "rmval":
+		switch {
+		case live && del:
+			if o.K == "rmval" {
+				return "fail:remove of an already deleted record"
+			}
+			return "ok"
+		case !live && v != nil:
+			return "fail:lazy load"
+		case !live:
+			return "ok"
+		case !in.Index[a]:
+			return "fail:not in index"
+		case !statOK():
+			return "fail:negative statistics"
+		case !covers(v):
+			return "fail:statistics do not cover the record"
+		}
+		return "ok"
+	case "getval":
+		if !live && v != nil {
+			return "fail:lazy load"
+		}
+		return "ok"
+	}
+	return ""
+}
+
 // runHistory executes a history on a fresh StateDB.  It returns the recorded
 // trace (per call: return value and observation, or ["-1"] for a panic), the
 // oracle's findings and the outcome classes reached.
@@ -672,14 +784,23 @@ func runHistory(h []Op, withOracle bool) (trace [][]string, or *oracle, classes 
 	e := newEnv()
 	or = &oracle{}
 	for i, op := range h {
-		pre := false
+		pre, preDel := false, false
 		if op.K == "addbal" && op.A == 3 {
 			pre = e.st.Empty(addrOf(3))
+		}
+		if op.K == "createval" && op.A >= 1 && op.A <= 4 {
+			_, live, del := e.st.VerifC09PeekValidator(valAddr(op.A))
+			preDel = live && del
+		}
+		if withOracle && len(or.stack) > 0 {
+			if c := valCond(e, op); c != "" {
+				classes = append(classes, "side_condition_"+op.K+":"+c)
+			}
 		}
 		ret, panicked, msg := e.exec(op)
 		executed = append(executed, op)
 		if withOracle {
-			if c := or.step(e, h, i, op, ret, panicked, msg, pre); c != "" {
+			if c := or.step(e, h, i, op, ret, panicked, msg, pre, preDel); c != "" {
 				classes = append(classes, c)
 			}
 		}
@@ -716,13 +837,13 @@ var bigVals = []string{"0", "1", "2", "5", "100", "18446744073709551615", "18446
 	"115792089237316195423570985008687907853269984665640564039457584007913129639935"}
 
 type gen struct {
-	r      *vf.Rng
-	e      *env // shadow execution, so that arguments can depend on the state
-	ops    []Op
-	stack  []int64 // ids the generator believes valid
-	stale  []int64
-	dead   bool
-	dlg    bool // oracle-only histories may call UpdateDelegation
+	r     *vf.Rng
+	e     *env // shadow execution, so that arguments can depend on the state
+	ops   []Op
+	stack []int64 // ids the generator believes valid
+	stale []int64
+	dead  bool
+	dlg   bool // oracle-only histories may call UpdateDelegation
 }
 
 func (g *gen) emit(o Op) {
@@ -855,7 +976,19 @@ func (g *gen) validatorOp(findings bool) {
 	r := g.r
 	id := uVal[r.Intn(4)]
 	if g.dlg && r.Chance(35) {
-		g.emit(Op{K: "upddelegation", A: id, B: uint64(501 + r.Intn(3)), V: fmt.Sprint(r.Intn(5) - 2)})
+		// never take out more than the delegation holds (the staking handlers check the amount)
+		d := uint64(501 + r.Intn(3))
+		amount := int64(r.Intn(5) - 2)
+		if v := g.e.st.GetValidatorByMainAddr(valAddr(id)); v != nil && amount < 0 {
+			have := int64(0)
+			if df := v.GetDelegationFrom(addrOf(d)); df != nil {
+				have = new(big.Int).Div(df.Token, params.StakeUint).Int64()
+			}
+			if -amount > have {
+				amount = -have
+			}
+		}
+		g.emit(Op{K: "upddelegation", A: id, B: d, V: fmt.Sprint(amount)})
 		return
 	}
 	k := r.Intn(14)
@@ -865,6 +998,12 @@ func (g *gen) validatorOp(findings bool) {
 		g.emit(Op{K: "createval", A: id, B: uint64(1 + r.Intn(3)), C: uint64(r.Intn(2)), V: s, W: t})
 	case k < 9:
 		s, t := g.stakeTok()
+		if g.dlg {
+			// with delegations around, stake and token stay what the delegations add up to
+			if v := g.e.st.GetValidatorByMainAddr(valAddr(id)); v != nil {
+				s, t = v.Stake.String(), v.Token.String()
+			}
+		}
 		g.emit(Op{K: "updval", A: id, B: uint64(1 + r.Intn(3)), C: uint64(r.Intn(2)), V: s, W: t, P: uint64(r.Intn(6))})
 	case k < 10:
 		g.emit(Op{K: "getval", A: id})
@@ -1027,6 +1166,73 @@ func genHistory(r *vf.Rng, style int, dlg bool) []Op {
 	return g.ops
 }
 
+// ---- exhaustive small scope (thorough tier) --------------------------------
+
+// symbols of the small-scope alphabet; reverts are resolved against the ids
+// that are valid at that point of the sequence
+var smallAlphabet = []string{"store1", "store0", "pay", "kill", "snap", "revin", "revout", "fin", "val"}
+
+func (g *gen) symbol(sym string) {
+	switch sym {
+	case "store1":
+		g.emit(Op{K: "setstate", A: 1, B: 1, V: "1"})
+	case "store0":
+		g.emit(Op{K: "setstate", A: 1, B: 1, V: "0"})
+	case "pay":
+		g.emit(Op{K: "addbal", A: 1, V: "1"})
+	case "kill":
+		g.emit(Op{K: "suicide", A: 1})
+	case "snap":
+		g.emit(Op{K: "snapshot"})
+	case "revin":
+		if len(g.stack) > 0 {
+			g.emit(Op{K: "revert", A: uint64(g.stack[len(g.stack)-1])})
+		} else {
+			g.emit(Op{K: "revert", A: 0})
+		}
+	case "revout":
+		if len(g.stack) > 0 {
+			g.emit(Op{K: "revert", A: uint64(g.stack[0])})
+		} else if len(g.stale) > 0 {
+			g.emit(Op{K: "revert", A: uint64(g.stale[0])})
+		} else {
+			g.emit(Op{K: "revert", A: 1})
+		}
+	case "fin":
+		g.emit(Op{K: "finalise", Del: true})
+	case "val":
+		if g.e.st.GetValidatorByMainAddr(valAddr(1)) == nil {
+			g.emit(Op{K: "createval", A: 1, B: 1, C: 1, V: "3", W: "30"})
+		} else {
+			g.emit(Op{K: "updval", A: 1, B: 2, C: 0, V: "4", W: "40", P: 1})
+		}
+	}
+}
+
+// exhaustive calls f with every sequence over alphabet of length 1..maxLen.
+func exhaustive(alphabet []string, maxLen int, f func([]Op)) {
+	var rec func(prefix []string)
+	rec = func(prefix []string) {
+		if len(prefix) > 0 {
+			g := &gen{e: newEnv()}
+			for _, s := range prefix {
+				g.symbol(s)
+			}
+			f(g.ops)
+			if g.dead {
+				return // every extension would stop at the same panic
+			}
+		}
+		if len(prefix) == maxLen {
+			return
+		}
+		for _, s := range alphabet {
+			rec(append(append([]string{}, prefix...), s))
+		}
+	}
+	rec(nil)
+}
+
 // ---- Coq printing ----------------------------------------------------------
 
 func zc(s string) string {
@@ -1114,7 +1320,7 @@ func opCoq(o Op) string {
 // modelled validator-journal reverts (fixes/C09_validator_journal_reverts.diff):
 // a revert across RemoveValidator gives the validator back, and a revert across
 // RemoveWithdrawRecords gives the queue back in its old order.
-func treeFixed() (rmval, wdorder bool) {
+func treeFixed() (rmval, wdorder, create bool) {
 	e := newEnv()
 	e.exec(Op{K: "createval", A: 1, B: 1, C: 1, V: "10", W: "1000"})
 	e.exec(Op{K: "finalise", Del: true})
@@ -1132,14 +1338,23 @@ func treeFixed() (rmval, wdorder bool) {
 	e.exec(Op{K: "revert", A: uint64(id)})
 	q := e.st.GetWithdrawQueue().Records
 	wdorder = len(q) == 3 && q[0].Nonce == 0 && q[1].Nonce == 1 && q[2].Nonce == 2
+	// fixes/C09_validator_create_revert.diff: the revert of a CreateValidator that replaced a removed
+	// validator puts the removed record and its index entry back
+	e = newEnv()
+	e.exec(Op{K: "createval", A: 1, B: 1, C: 1, V: "9", W: "13"})
+	e.exec(Op{K: "rmval", A: 1})
+	id, _, _ = e.exec(Op{K: "snapshot"})
+	e.exec(Op{K: "createval", A: 1, B: 3, V: "7", W: "70"})
+	e.exec(Op{K: "revert", A: uint64(id)})
+	create = e.st.VerifC09Internals().Index[valAddr(1)]
 	return
 }
 
-var fixedFlag bool
+var fixedFlag, fixedCreate bool
 
 func caseCoq(ops []Op, trace [][]string) string {
 	var sb strings.Builder
-	sb.WriteString("mkCase " + bc(fixedFlag) + " [")
+	sb.WriteString("mkCase (mkFx " + bc(fixedFlag) + " " + bc(fixedCreate) + ") [")
 	for i, o := range ops {
 		if i > 0 {
 			sb.WriteString("; ")
@@ -1206,13 +1421,14 @@ func opsKey(ops []Op) string {
 	return string(b)
 }
 
-func doGen(seed uint64, n int, outDir, corpusDir string) {
+func doGen(seed uint64, n int, outDir, corpusDir, tier string) {
 	r := vf.NewRng(seed)
 	res := vf.NewResult("C09", seed)
-	fa, fb := treeFixed()
-	fixedFlag = fa
+	fa, fb, fc := treeFixed()
+	fixedFlag, fixedCreate = fa, fc
 	res.Extra["tree_has_remove_validator_repair"] = fa
 	res.Extra["tree_has_withdraw_order_repair"] = fb
+	res.Extra["tree_has_create_revert_repair"] = fc
 	if fa != fb {
 		res.Count("tree_partially_repaired")
 	}
@@ -1235,6 +1451,7 @@ func doGen(seed uint64, n int, outDir, corpusDir string) {
 				hasRevert = true
 			}
 		}
+		_ = hasRevert
 		if hasRevert {
 			distinct[opsKey(executed)] = true
 		}
@@ -1281,6 +1498,13 @@ func doGen(seed uint64, n int, outDir, corpusDir string) {
 			continue
 		}
 		add(h)
+	}
+	if tier == "thorough" && len(loadCorpus(corpusDir)) > 0 { // first shard of a thorough run
+		before := count
+		exhaustive(smallAlphabet, 4, func(ops []Op) { add(History{Ops: ops, Comment: "exhaustive"}) })
+		exhaustive([]string{"store1", "snap", "revin", "revout", "fin", "val"}, 5, func(ops []Op) { add(History{Ops: ops, Comment: "exhaustive"}) })
+		res.Extra["exhaustive_small_scope_histories"] = count - before
+		n += count - before
 	}
 	for count < n {
 		style := 0
@@ -1333,13 +1557,14 @@ func main() {
 	out := flag.String("out", ".", "")
 	corpus := flag.String("corpus", "/verif/corpus/C09", "")
 	file := flag.String("file", "", "")
+	tier := flag.String("tier", "quick", "")
 	flag.Parse()
 	logging.Root().SetHandler(logging.DiscardHandler())
 	params.InitNetworkId(params.NetworkIdForTestCase)
 	initValidators()
 	switch mode {
 	case "gen":
-		doGen(*seed, *n, *out, *corpus)
+		doGen(*seed, *n, *out, *corpus, *tier)
 	case "replay":
 		doReplay(*file)
 	case "explain": // prints the full observation after every call, and the Coq term to evaluate in the model
@@ -1360,8 +1585,8 @@ func main() {
 		for _, o := range executed {
 			xs = append(xs, opCoq(o))
 		}
-		fa, _ := treeFixed()
-		fmt.Printf("From VF.C09 Require Import Model.\nLocal Open Scope N_scope.\nEval vm_compute in trace_full %s [%s] init.\n", bc(fa), strings.Join(xs, "; "))
+		fa, _, fc := treeFixed()
+		fmt.Printf("From VF.C09 Require Import Model.\nLocal Open Scope N_scope.\nEval vm_compute in trace_full (mkFx %s %s) [%s] init.\n", bc(fa), bc(fc), strings.Join(xs, "; "))
 	default:
 		fmt.Println("usage: c09 gen|replay")
 		os.Exit(2)
